@@ -34,6 +34,16 @@ CLAIMS = {
         note="Covered: thrift.Binary readers, ReadMessageBegin, Skip, the stream reader and skippers, skip decoders, ApplicationException.FastRead, FastUnmarshal, UnmarshalFastMsg. "
              "Not yet: Base/BaseResp FastRead, unknown-field conversion, TTHeader decode. " + TRUST,
         design="5 C03"),
+    "C04": dict(
+        text="Proof that DefaultReader (io.Reader-backed) and BytesReader refine the bufiox.Reader interface contract, whose ghost state is the unread stream $u: Next/Peek return exactly the next n bytes of "
+             "the stream or an error and then consume nothing, Peek never advances, Skip advances by exactly n, ReadBinary copies min(len(bs), remaining) stream bytes, reports that count, and reports fewer only "
+             "with an error; ReadLen is the count consumed since Release; Release keeps the unread stream. The source is the io.Reader interface contract: any fragmentation, zero-length reads, data "
+             "delivered together with the error. acquireSlow (growth, compaction, read loop) is proved against the representation invariant: buffered-but-unread bytes are exactly the stream bytes preceding the source's future; "
+             "the error that surfaces is the source's own. Loops by invariants and decreases clauses (termination of the read loop included).",
+        note="Assumes a source that does not stall forever: a nil error from Read comes with at least one byte unless len(p)==0 (otherwise the reader reports io.ErrNoProgress after 100 consecutive empty reads, "
+             "proved only as 'a non-nil error'). maxSizeStats (buffer size heuristic) has a trusted range contract. The choice of ghost stream for NewBytesReader (the caller's bytes are the stream) is a trusted clause. "
+             "Requests are limited to n <= 2^46. Two genuine defects were found and fixed (D10, D7). " + TRUST,
+        design="5 C04"),
     "C08": dict(
         text="Proof: the buffer skipper agrees with the grammar in both directions: success iff the grammar says a complete well-formed value is present, with the exact extent; "
              "truncation / unknown type, negative size and exhausted nesting budget (64) each yield an error; recursion is bounded (decreases maxdepth).",
